@@ -294,7 +294,7 @@ func runC06(c *Ctx, prop string) {
 		c.Check(len(bad) == 0, "C07-AREA", fnName(parse), "area-iff-tag", parse.Pos(), "areas only for matched, non-empty @tag comments", strings.Join(bad, "; "))
 	}
 	// ---------------- EVERYTAG: a matched, non-empty annotation on a field with a tag literal IS injected
-	c.Rule(prop+"-EVERYTAG", "once a comment's @tag text has been found non-empty, the only further condition for building the field's area is that the field has a tag literal (a nil test): no other test — in particular none on the characters of the annotation — can drop it silently", 1)
+	c.Rule(prop+"-EVERYTAG", "once a comment's @tag text has been found non-empty, no further test ON THE ANNOTATION TEXT decides whether the field's area is built (tests of the field's own tag literal — nil, too short to be a literal — do not look at what the annotation says)", 1)
 	{
 		var bad []string
 		nA := 0
@@ -312,6 +312,7 @@ func runC06(c *Ctx, prop string) {
 				}
 				// S: the nearest dominating edge of a comparison with the empty string (the tag-found test)
 				var S *ssa.BasicBlock
+				var tagText ssa.Value
 				for d := b; d != nil && S == nil; d = d.Idom() {
 					if len(d.Preds) != 1 {
 						continue
@@ -323,6 +324,7 @@ func runC06(c *Ctx, prop string) {
 					if cmp, ok := iff.Cond.(*ssa.BinOp); ok {
 						if sv, isS := constString(cmp.Y); isS && sv == "" {
 							S = d
+							tagText = cmp.X
 						}
 					}
 				}
@@ -362,6 +364,32 @@ func runC06(c *Ctx, prop string) {
 					okCond := false
 					if cmp, ok := iff.Cond.(*ssa.BinOp); ok && (cmp.Op == token.EQL || cmp.Op == token.NEQ) {
 						if isNilConst(cmp.X) || isNilConst(cmp.Y) {
+							okCond = true
+						}
+					}
+					// a test that does not look at the annotation text at all (the shape of the field's own tag
+					// literal, a nil comment, ...) cannot reject an annotation for what it says
+					if !okCond && tagText != nil {
+						seen := map[ssa.Value]bool{}
+						var dep func(v ssa.Value, d int) bool
+						dep = func(v ssa.Value, d int) bool {
+							if v == nil || seen[v] || d > 8 {
+								return false
+							}
+							seen[v] = true
+							if v == tagText {
+								return true
+							}
+							if ins, ok := v.(ssa.Instruction); ok {
+								for _, op := range ins.Operands(nil) {
+									if op != nil && dep(*op, d+1) {
+										return true
+									}
+								}
+							}
+							return false
+						}
+						if !dep(iff.Cond, 0) {
 							okCond = true
 						}
 					}
